@@ -406,6 +406,7 @@ def tour_cache_rules(ctx, tag="R3"):
     from . import formulas
     formulas.tour_delta_signs(ctx, tag)
     formulas.depot_replacement_tests(ctx, tag)
+    formulas.unit_agreement(ctx, tag)       # incremental helper and from-scratch definition price an unreachable hop in the same unit
 
 
 def cycle_update_rules(ctx):
@@ -447,6 +448,7 @@ def rules(ctx):
     from . import formulas
     formulas.tour_delta_signs(ctx, "R3")
     formulas.depot_replacement_tests(ctx, "R3")
+    formulas.unit_agreement(ctx, "R3")
     cost_delta_form(ctx, s_sites)
     formation_update_order(ctx)
     componentwise_pair_updates(ctx)
